@@ -2,7 +2,7 @@
 import re
 
 from analysis import (option_edges, Prov, Guards, fmt, fmt_short, walk, roots, short, comparison, find_calls, callee_matches,
-                      must_pass, named_switches, const_int_of, cmp_intervals, normalised_cmp, canon)
+                      must_pass, named_switches, const_int_of, cmp_intervals, normalised_cmp, canon, closures_of)
 from facts import AnchorError, strip_closure
 from harness import Rule, guarded
 
@@ -266,7 +266,28 @@ def r3(ctx):
     # counting only unexpired votes
     counts = [bi for bi, t in b.calls() if callee_matches(t, r"hash_map::Entry::<.*>::or_default$", r"Entry::or_default$") or callee_matches(t, r"HashMap::<.*>::insert$", r"HashMap::insert$")]
     r = b.reachable(0, removed_edges=fresh)
-    rule.check(bool(fresh) and counts and not any(c in r for c in counts), "votes are counted / kept only if their expiry is after now", "votes|stale",
+    stale_ok = bool(fresh) and bool(counts) and not any(c in r for c in counts)
+    if not stale_ok and counts:
+        # the test as an adaptor on the iterator the counting loop runs over (`votes.iter().filter(|(_, (_, instant))| instant > &now)`)
+        fresh_clo = set()
+        for cb, cp, to_caller in closures_of(facts, b):
+            c = comparison(canon(cp.local(0)))
+            if not c or c[0] not in (">", "<"):
+                continue
+            later, earlier = (c[1], c[2]) if c[0] == ">" else (c[2], c[1])
+            from_item = any(x[0] == "param" and x[1] >= 2 for x in walk(later)) and not any(x[0] == "upvar" for x in walk(later))
+            if from_item and fmt_short(earlier) == "now":
+                fresh_clo.add(cb.path)
+        filt_sites = set()
+        for bi, t in b.calls():
+            if callee_matches(t, r"Iterator>?::filter$") and len(t.args) == 2:
+                clo = p.operand(t.args[1])
+                if clo[0] == "agg" and clo[1].split(":", 1)[-1] in fresh_clo:
+                    filt_sites.add((b.path, bi))
+        nexts = [(bi, t) for bi, t in b.calls() if callee_matches(t, r"Iterator>?::next$") and any(c in b.reachable(bi) for c in counts)]
+        stale_ok = bool(filt_sites) and bool(nexts) and all(
+            any(x[0] == "call" and len(x) > 3 and x[3] in filt_sites for x in walk(p.operand(t.args[0]))) for bi, t in nexts)
+    rule.check(stale_ok, "votes are counted / kept only if their expiry is after now", "votes|stale",
                "stale votes are counted towards the majority", loc=b.loc(b.line))
     # the threshold passed in is the configured minimum
     mj = facts.one(re.escape(IV) + "majority")
